@@ -268,10 +268,7 @@ func replaceNumber(media string, nr uint32) string {
 // downloadToFile downloads content directly into a file given by outPath
 func downloadToFile(ctx context.Context, url, outPath string) error {
 	client := http.DefaultClient
-	if fileExists(outPath) {
-		slog.Info("file exists", "path", outPath)
-		return nil
-	}
+	// The callers decide whether an existing file is skipped or (with force) overwritten
 	slog.Info("downloading", "url", url, "path", outPath)
 	req, err := http.NewRequestWithContext(ctx, http.MethodGet, url, nil)
 	if err != nil {
